@@ -258,6 +258,38 @@ def main(argv=None):
                     violations.append((oid, path, False))
             else:
                 unconfirmed.setdefault(oid, []).append(f)
+        # a counter-model over abstract functions (zone offsets, calendar converters) need not name a
+        # real zone / date: a contract may propose real-world witnesses derived from it, each replayed
+        # on the real code like a counter-model
+        wit = getattr(c, "witnesses", None)
+        for oid, fl in list(unconfirmed.items()) if wit else []:
+            if oid in confirmed or known_match(known, pid, oid):
+                continue
+            try:
+                cands = list(wit(r["case"], fl[0]["model"]))[:48]
+            except Exception as e:
+                crashes.append("witnesses() of %s: %r" % (c.name, e))
+                cands = []
+            for vals in cands:
+                rep = driver.replay_subprocess(r["module"], cname, r["case"], vals)
+                models_replayed += 1
+                if bool(rep.get("clauses")) and rep["clauses"].get(fl[0]["clause"]) is False:
+                    confirmed.add(oid)
+                    path = write_replay(pid, oid, {
+                        "property": pid, "obligation": oid, "function": c.func,
+                        "counter_model": fl[0]["model"], "symbolic_outcome": fl[0]["outcome"],
+                        "found_by": "witness search seeded by the verifier's counter-model (the "
+                                    "model itself is over abstract zone/calendar functions)",
+                        "failing_input": vals, "replay_on_real_code": rep,
+                        "replay_spec": {"module": r["module"], "contract": cname,
+                                        "case": r["case"], "values": vals},
+                        "how_to_rerun": "cd /verif && echo '%s' | PYTHONPATH=/repo:/verif "
+                                        ".venv/bin/python -m pyvc.replay" % json.dumps({
+                                            "module": r["module"], "contract": cname,
+                                            "case": r["case"], "values": vals}),
+                    })
+                    violations.append((oid, path, False))
+                    break
         for oid, fl in unconfirmed.items():
             if oid in confirmed:
                 continue
